@@ -46,7 +46,7 @@ class VC:
         self.prop = prop
         self.tier = tier
         self.seed = seed
-        self.timeout_ms = 10000 if tier == 'quick' else 60000
+        self.timeout_ms = 20000 if tier == 'quick' else 60000
         self.results = []
         self.covers = {}
         self.paths = 0
